@@ -23,7 +23,7 @@ const (
 	clEnum    = "enumeration"
 	clChar    = "character"
 	clIEEE    = "ieee754"
-	clStruct  = "struct"  // exact struct of integer / bit fields
+	clStruct  = "struct" // exact struct of integer / bit fields
 	clReplace = "integer-with-replacement"
 	clScaled  = "scaled"  // not exact: value stability only
 	clFloat16 = "float16" // not exact: several encodings per value
